@@ -16,7 +16,8 @@ git apply /tmp/seed/$ID/patch.diff
 cd /repo && git apply --check /tmp/seed/$ID/patch.diff || { echo "patch does not apply to /repo"; exit 8; }
 git apply /tmp/seed/$ID/patch.diff
 cd /verif
-for c in $ID "$@"; do echo "== ./check $c on the seeded tree"; ./check $c | cut -c1-300; echo "exit=${PIPESTATUS[0]}"; done
+P=${ID%%[a-z]*}
+for c in $P "$@"; do echo "== ./check $c on the seeded tree"; ./check $c | cut -c1-300; echo "exit=${PIPESTATUS[0]}"; done
 git -C /repo checkout -- .
 git -C /repo status --short | head -3
-echo "== reverted; ./check $ID on the clean tree:"; ./check $ID | tail -1
+echo "== reverted; ./check $P on the clean tree:"; ./check $P | tail -1
